@@ -342,7 +342,7 @@ def family_of(pool, unexplained):
 
 
 def run(ctx):
-    ok = ctx.lean_stage(["entities"], ["Verif.Props.C05", "Verif.Props.LeafPos", "Verif.Props.Coalesce"])
+    ok = ctx.lean_stage(["entities"], ["Verif.Props.C05", "Verif.Props.LeafPos", "Verif.Props.Coalesce", "Verif.Props.InlineLoop"])
     _, leaf_fail = ctx.block("leafposlib", "leafpos", __import__("blocks").SRC["leafpos"])      # faithful leaf positions (Verif.Props.LeafPos) vs the real tokens
     for f in leaf_fail:
         d = f["doc"] if isinstance(f, dict) else str(f)
@@ -351,6 +351,7 @@ def run(ctx):
             ctx.known_finding(fam)
         else:
             ctx.report({"doc": d}, "leaf-column", {"detail": f, "oracle": "character at the token's column of the tab-expanded physical line is the leaf's opener (tools/leafposlib.py)"})
+    __import__("blocks").inlineloop(ctx)     # inline_loop_positions_partial / loop_tokens_positions: line/column handed to every inline handler = true position (2 excluded families proved)
     ctx.block("coalescelib", "coalesce", __import__("blocks").SRC["coalesce"])        # merged text token keeps the first token's position (merged_position_first)
     if not ok:
         ctx.broken.append("lake build failed: the reference model cannot be run")
